@@ -25,6 +25,9 @@ func (x *Exec) tyOf(e ast.Expr) *Ty {
 }
 
 func (x *Exec) safe(st *State, kind string, goal *Term, n ast.Node) {
+	if isLit(goal, "true") {
+		return
+	}
 	x.oblige(st, "safe", fmt.Sprintf("%s%d", kind, x.nextOrd("safe:"+kind)), goal, n.Pos(), "")
 	st.assume(goal) // continue under the assumption that the check passed
 }
